@@ -1,0 +1,8 @@
+//go:build !verif
+// +build !verif
+
+package php5
+
+import "github.com/z7zmey/php-parser/pkg/token"
+
+func verifOnLex(p *Parser, t *token.Token) {}
